@@ -193,7 +193,7 @@ def gen_items(run, cpuinfo):
                 forms.append((ln, k))
         rng = random.Random(run.seed * 15485863 + zlib.crc32(cpu.encode()))
         if quick:
-            forms = rng.sample(forms, min(max(4, len(forms) // 8), len(forms)))
+            forms = rng.sample(forms, min(max(8, len(forms) // 2), len(forms)))
         per = 6
         for i in range(0, len(forms), per):
             mixes = [rng.getrandbits(32) for _ in range(3 if quick else 10)]
